@@ -168,7 +168,7 @@ fn gen_vertex(rng: &mut Rng, mode: u64) -> [f32; 4] {
         }
         _ => {
             // far away in a few decades
-            let s = *rng.pick(&[10.0f32, 100.0, 0.01]);
+            let s = *rng.pick(&[10.0f32, 4.0, 0.1]);
             v = [v[0] * s, v[1] * s, v[2] * s, v[3] * if rng.bool() { s } else { 1.0 }];
         }
     }
